@@ -335,6 +335,35 @@ pub fn run(tier: Tier) -> Report {
     }
     evals += twin_reps;
     rep.cov("twin_grammar_repetitions", J::i(twin_reps as i64));
+    // ---- Eq/Hash agreement of everything that is interned, decided pair by pair with a fixed
+    // hasher: the deterministic counterpart of the seed sweeps above
+    let mut law_grammars = 0u64;
+    {
+        let mut fam: Vec<crate::ast::G> = vec![];
+        crate::fam::twin_words(3, &mut |g| fam.push(g));
+        crate::fam::redundant_twins(&mut |g| fam.push(g));
+        crate::fam::nested_words(&mut |g| fam.push(g));
+        crate::fam::single_call(crate::fam::v0(), tier.pick(4, 5), &mut |g| fam.push(g));
+        let mut texts: Vec<String> = fam.iter().map(crate::ast::print_grammar).collect();
+        texts.extend(twins.iter().cloned());
+        texts.extend(crate::corpus::TEXTS.iter().map(|(_, t)| t.to_string()));
+        for (_, t) in crate::corpus::examples() {
+            texts.push(t);
+        }
+        for text in &texts {
+            for (shell, _) in SHELLS {
+                if let Outcome::Ok(c) = pipe::compile(text, shell) {
+                    law_grammars += 1;
+                    let subs = crate::props::c02::rebuilt_subs(&c);
+                    if let Err((k, s, d)) = crate::props::c02::hash_laws(text, shell, &c, &subs) {
+                        rep.violation(&k, s, d);
+                    }
+                }
+            }
+        }
+    }
+    evals += law_grammars;
+    rep.cov("grammar_x_shell_checked_for_eq_hash_agreement", J::i(law_grammars as i64));
     // ---- in-process repetition on the small family
     let mut reps = 0u64;
     crate::fam::single_call(crate::fam::v0(), tier.pick(3, 4), &mut |g| {
@@ -359,7 +388,7 @@ pub fn run(tier: Tier) -> Report {
     rep.cov("in_process_repetitions", J::i(reps as i64));
     rep.cov(
         "rule",
-        J::s("controlled-nondeterminism sweep (exhaustive over the configuration matrix, a sweep of the 2^128 seed space): grammars = two synthetic wide grammars (40 equal-length literals, 8 commands under ||, 7 within-word automata of equal and different shape; second one with every list reversed) + corpus + examples/*.usage; x 4 shells; outputs = script, --dfa file, --regex file; configurations = hash seeds 0..K-1 through an LD_PRELOAD getrandom shim (owning std's RandomState), a replay of seed 0, ASLR off with and without the shim, OS randomness, empty / large / odd environment, other cwd, grammar on stdin. All must equal the seed-0 run byte for byte. In-process histories: every single file, every order of three (thorough: four) grammars and a repetition history are compiled inside one fresh worker process each; every file's three output hashes must be the same in all histories, and equal to a fresh binary's bytes. In-process repetition on all trees <= 3 (4) nodes, and 600 (20000) repetitions of grammars with twin within-word expressions (each compile uses freshly keyed interning tables). distinct = distinct (grammar, shell, configuration)."),
+        J::s("controlled-nondeterminism sweep (exhaustive over the configuration matrix, a sweep of the 2^128 seed space): grammars = two synthetic wide grammars (40 equal-length literals, 8 commands under ||, 7 within-word automata of equal and different shape; second one with every list reversed) + corpus + examples/*.usage; x 4 shells; outputs = script, --dfa file, --regex file; configurations = hash seeds 0..K-1 through an LD_PRELOAD getrandom shim (owning std's RandomState), a replay of seed 0, ASLR off with and without the shim, OS randomness, empty / large / odd environment, other cwd, grammar on stdin. All must equal the seed-0 run byte for byte. In-process histories: every single file, every order of three (thorough: four) grammars and a repetition history are compiled inside one fresh worker process each; every file's three output hashes must be the same in all histories, and equal to a fresh binary's bytes. Eq/Hash agreement: for twin-word, redundant-twin, nested-word families, all trees <= 4 (5) nodes, the corpus and the examples x 4 shells, every pair of regex inputs, pooled within-word regexes and rebuilt within-word automata that compare equal must hash equal under a fixed-key hasher (otherwise interning depends on the seed). In-process repetition on all trees <= 3 (4) nodes, and 600 (20000) repetitions of grammars with twin within-word expressions (each compile uses freshly keyed interning tables). distinct = distinct (grammar, shell, configuration)."),
     );
     rep.cov("exhaustive", J::Bool(false));
     rep.cov("samples", J::Arr(samples.items));
